@@ -16,6 +16,7 @@ mod c14;
 mod c15;
 mod c16;
 mod c17;
+mod c18;
 mod cmp;
 mod ev;
 mod fe;
@@ -107,6 +108,7 @@ fn main() {
         "C15" => c15::main(tier, replay),
         "C16" => c16::main(tier, replay),
         "C17" => c17::main(tier, replay),
+        "C18" => c18::main(tier, replay),
         "SELFTEST" => selftest::main(),
         "DBGLATTICE" => { selftest::dbg_lattice(); 0 }
         "DBGHUFF" => { selftest::dbg_huff(); 0 }
